@@ -211,7 +211,15 @@ def _generate_ctls_with_code_map(snapshot, start, end, config, rst_handler, code
     # (unknown)
     ctls = {start: 'U', end: 'i'}
     map_reader = get_component('CodeMapReader')
-    for address, length in map_reader.read_map(code_map, snapshot, start, end):
+    code_blocks = list(map_reader.read_map(code_map, snapshot, start, end))
+    for i, (address, length) in enumerate(code_blocks):
+        if rst_handler:
+            # The arguments of an RST instruction at the end of the block are
+            # not executed, but belong to the block (unless they are executed
+            # as part of the next block)
+            i_addr, i_size = list(decode(snapshot, address, address + length, rst_handler))[-1][:2]
+            limit = code_blocks[i + 1][0] if i + 1 < len(code_blocks) else end
+            length = max(length, min(i_addr + i_size, limit) - address)
         ctls[address] = 'c'
         if address + length < end:
             ctls[address + length] = 'U'
